@@ -216,14 +216,20 @@ CHECKS["C08"] = dict(
    ref="§6 C08")
 
 CHECKS["C14"] = dict(
-   technique="contract-based deductive verification, relational: fvm1d.rhs executed symbolically on data and on the data "
-             "shifted by one cell, uniform periodic mesh through its contract (C20), numflux through its contract; z3",
+   technique="contract-based deductive verification, relational: fvm1d.rhs (and fvm2dcart.rhs) executed symbolically on data "
+             "and on the data shifted by one cell, uniform periodic mesh through its contract (C20), numflux through its "
+             "contract; staged ghost lemmas on the face states; z3 + product-abstraction tier",
    text="Proof (1-D) for all data, symbolic ncell>=6 (five seam cells + generic interior cell) and ncell=1..5, every model and "
         "reconstruction family (quick tier: extrapol1/2/k and MUSCL minmod/vanleer; thorough: all): the residual of the shifted "
         "data is the shifted residual at every cell, and the per-cell time step is shift-equivariant; hence (lemmas: "
         "composition of shifts, permutation invariance of the minimum, normal forms of C05-C07) every integrator and the "
-        "driver commute with cyclic shifts. The 2-D part (shifts along x and y) is not covered yet.",
-   note=TB + "; mesh contract (uniform, C20) and flux contract (pointwise function, C01) as hypotheses; 2-D pending.",
+        "driver commute with cyclic shifts. 2-D (euler2d, extrapol2d1 and extrapol2dk with symbolic kappa, symbolic nx, ny >= 1, "
+        "lx, ly, periodic on all sides): at a generic cell the residual of the data shifted by one cell along x or along y is "
+        "the shifted residual, and the per-cell time step is shift-equivariant (cells next to the seam are the cases of the "
+        "generic cell; grids as small as 1x1 included).",
+   note=TB + "; mesh contract (uniform, C20) and flux contract (pointwise function, C01) as hypotheses; 2-D: cons2prim and "
+        "numflux through their pointwise contracts (leaf clauses in C15 cons2prim/*, C01 flux/*/pointwise), the rest of "
+        "fvm2dcart.rhs is the real code.",
    ref="§6 C14")
 
 CHECKS["C13"] = dict(
